@@ -70,6 +70,11 @@ CLAIMED = {
         note="PyYAML's node<->text step is assumed faithful (sampled through real files and streams, 1-3 cycles); Model objects (own _iteritems/from_yaml) are search-only: names, ties, maps, constraints, identical text; float formatting and numpy scalar types without representer are search-only.",
         technique="Lean 4 theorems over a model parametrised by a table regenerated from source + exact node/object correspondence + save/load search",
         ref="DESIGN.md §5 C15"),
+    "C16": dict(
+        text="Proof (Lean 4, reals): the attribute dictionary survives pack -> unpack (scalars through YAML text, per-channel labelled arrays with their labels, None as absence) for all keys other than the four bookkeeping keys, given yaml.safe_load(yaml.dump v) = v; update_metadata changes exactly the fields passed (not None) and keeps the key set; a raster pixel (i,j) sits at (i*sx, j*sy); the integer stored by the 8/16-bit export is within 0.500001 of levels*v, the extreme pixels are stored as 0 and 255, and therefore the auto-scaled TIFF round trip returns every pixel within (max-min)*0.500001/255 of its value; averaging gives the pixelwise mean and an order-independent standard deviation (Welford, from C18). Tied by correspondence: pack/unpack and update_metadata exact, the integers _save_im writes exact, display scaling and the rescaling on load to 1e-12..1e-14.",
+        note="HDF5 (h5netcdf) and Pillow are externals exercised by the search on generated files (1-3 cycles, dtypes, anisotropic spacing, 1-3 channels, dict/array metadata, names); the YAML inverse pair is a hypothesis; 'original untouched' is search-only.",
+        technique="Lean 4 theorems (floor bounds, list induction) + differential correspondence through real files + round-trip search",
+        ref="DESIGN.md §5 C16"),
 }
 
 NOT_YET = {}
